@@ -264,6 +264,27 @@ def pct_bounds(durs, p):
     return d[(p * (n - 1)) // 100], d[(p * (n - 1) + 99) // 100]
 
 
+class Fails(list):
+    """failures of one case + the percentile observations (service, p, reported value, lo, hi, frac) that are judged over the
+    whole run: see percentile_definitions()"""
+    def __init__(self):
+        list.__init__(self)
+        self.obs = []
+
+
+PCT_DEFS = {
+    "linear": lambda lo, hi, fr: lo + (hi - lo) * fr / 100.0,
+    "lower": lambda lo, hi, fr: lo,
+    "higher": lambda lo, hi, fr: hi,
+    "nearest": lambda lo, hi, fr: lo if fr < 50 else hi,
+    "midpoint": lambda lo, hi, fr: (lo + hi) / 2.0,
+}
+
+
+def matching_defs(o):
+    return set(name for name, fn in PCT_DEFS.items() if abs(fn(o["lo"], o["hi"], o["frac"]) - o["got"]) <= 1e-6)
+
+
 def check_red(forest, records, fails, mult=1, mk=None):
     mk = mk or forest["mal"]["kind"]
     by_svc = {}
@@ -300,6 +321,11 @@ def check_red(forest, records, fails, mult=1, mk=None):
                     if g is None or g < lo - 1e-6 or g > hi + 1e-6:
                         fails.append(("red:percentile", mk, "service %s: p%d = %r, entry span durations %s ms put it in [%s, %s]" % (
                             svc, pe["p"], g, sorted(spans[i]["dur"] for i in e["entries"]), lo, hi)))
+                    elif lo != hi and hasattr(fails, "obs"):
+                        n_e = e["count"] * mult
+                        fails.obs.append({"svc": svc, "p": pe["p"], "got": g, "lo": lo, "hi": hi, "mk": mk,
+                                          "frac": pe.get("frac") if mult == 1 else (pe["p"] * (n_e - 1)) % 100,
+                                          "durs": sorted(spans[i]["dur"] for i in e["entries"]) if n_e <= 12 else "%d values" % n_e})
         elif r is not None:
             lo_c, hi_c = len(e["def"]), len(e["poss"])
             if not any(lo_c - 1e-6 <= c <= hi_c + 1e-6 for c in cnts):
@@ -323,7 +349,7 @@ def replay_forest(binary, case):
     """Returns (fails [(what, malkind, detail)], outcome or None, stats)."""
     forest, plan = case["forest"], case["plan"]
     d = vlib.scratch("c12")
-    fails = []
+    fails = Fails()
     dr = None
     views = 0
     try:
@@ -390,7 +416,7 @@ def replay_large(binary, case):
     """A well-formed forest replicated `reps` times: mode 'forest' = reps x traces, mode 'trace' = every trace reps x as large."""
     forest, reps, mode = case["forest"], case["reps"], case["mode"]
     d = vlib.scratch("c12L")
-    fails = []
+    fails = Fails()
     dr = None
     views = 0
     mk = "large-" + mode
@@ -566,15 +592,19 @@ def run(chk):
     if os.environ.get("VERIF_SKIP_MODEL"):        # development switch (mutation runs): binding only
         return run_binding(chk, quick)
     # ---- model
-    for name, cfg, note in (
-            ("MC_Traces", "MC_Traces.cfg", "build + malformation + every ingest plan, MaxSpans=3: all invariants incl. IngestPlanInvariance"),
+    # the model runs are independent: side by side
+    jobs = [("MC_Traces", "MC_Traces.cfg", "build + malformation + every ingest plan, MaxSpans=3: all invariants incl. IngestPlanInvariance"),
             ("MC_Traces_forest", "MC_Traces_forest4.cfg" if quick else "MC_Traces_forest.cfg",
              "every forest with <= %d spans x every malformation: view invariants" % (4 if quick else 5)),
-            ("MC_Traces_plan", "MC_Traces_plan.cfg", "every ingest plan for 1..7 spans")):
-        r = vlib.run_tlc("MC_Traces", cfg, workers=WORKERS, timeout=1500, coverage=(cfg == "MC_Traces.cfg" and not quick))
+            ("MC_Traces_plan", "MC_Traces_plan.cfg", "every ingest plan for 1..8 spans"),
+            ("MC_Traces_globalids", "MC_Traces_globalids.cfg", "")]
+    mw = max(2, WORKERS // 2)
+    res = vlib.pmap(lambda j: vlib.run_tlc("MC_Traces", j[1], workers=mw, timeout=1500, coverage=(j[1] == "MC_Traces.cfg" and not quick)),
+                    jobs, workers=len(jobs))
+    for (name, cfg, note), r in zip(jobs[:3], res[:3]):
         vlib.tlc_must_hold(r, name)
         chk.add_tlc(name, r, note)
-    r2 = vlib.run_tlc("MC_Traces", "MC_Traces_globalids.cfg", workers=WORKERS, timeout=600)
+    r2 = res[3]
     if "BuildIsWellFormed" not in r2.violated:
         raise vlib.Infra("model sensitivity lost: ResolveInTrace=FALSE no longer violates BuildIsWellFormed")
     chk.cov["model_sensitivity"] = "ResolveInTrace=FALSE (parents resolved by span id alone) violates BuildIsWellFormed on cross-trace id collisions (expected)"
@@ -584,9 +614,13 @@ def run(chk):
 
 def run_binding(chk, quick):
     # ---- behaviours
-    f_ex, g1 = gen_forests("Gen_Traces_forest.cfg" if quick else "Gen_Traces_forest_deep.cfg", chk.seed, 300 if quick else 700, 20 if quick else 60)
-    f_sim, g2 = gen_forests("Gen_Traces_forest_sim.cfg", chk.seed, 1, 1, simulate="num=%d" % (150 if quick else 2500), depth=14)
-    plans, g3 = vlib.tlc_generate("Gen_Traces", "Gen_Traces_plan.cfg", timeout=600)
+    gens = [lambda: gen_forests("Gen_Traces_forest.cfg" if quick else "Gen_Traces_forest_deep.cfg", chk.seed, 300 if quick else 700, 20 if quick else 60),
+            lambda: gen_forests("Gen_Traces_forest_sim.cfg", chk.seed, 1, 1, simulate="num=%d" % (150 if quick else 2500), depth=14),
+            # RED-rich forests: 6..8 spans, two services, some service with >= 5 entry spans (durations repeat: Durs in Traces.tla)
+            lambda: gen_forests("Gen_Traces_forest_red.cfg", chk.seed, 1, 1, simulate="num=%d" % (1500 if quick else 12000), depth=14),
+            lambda: vlib.tlc_generate("Gen_Traces", "Gen_Traces_plan.cfg", timeout=600)]
+    (f_ex, g1), (f_sim, g2), (f_red, g4), (plans, g3) = vlib.pmap(lambda fn: fn(), gens, workers=len(gens))
+    chk.add_tlc("Gen_Traces_forest_red", g4, "well-formed forests with >= 5 entry spans in one service, simulation (%d forests)" % len(f_red))
     chk.add_tlc("Gen_Traces_forest", g1, "forests, exhaustive <= %d spans, seed filter (%d forests)" % (4 if quick else 5, len(f_ex)))
     chk.add_tlc("Gen_Traces_forest_sim", g2, "forests with 5..7 spans, simulation (%d forests)" % len(f_sim))
     chk.add_tlc("Gen_Traces_plan", g3, "ingest plans (%d)" % len(plans))
@@ -614,6 +648,13 @@ def run_binding(chk, quick):
         plans_by_n.setdefault(p["n"], []).append(p)
     for n in plans_by_n:
         plans_by_n[n].sort(key=lambda p: json.dumps(p, sort_keys=True))
+    f_red = vlib.dedup(f_red, key=lambda f: json.dumps(f["spans"], sort_keys=True))
+    f_red.sort(key=lambda f: json.dumps(f["spans"], sort_keys=True))
+    rnd.shuffle(f_red)
+    n_red = 24 if quick else 400
+    if len(f_red) < min(n_red, 8):
+        raise vlib.Infra("too few RED-rich forests generated (%d)" % len(f_red))
+    picked += f_red[:n_red]
     cases = []
     for i, f in enumerate(picked):
         cases.append({"idx": i, "forest": f, "plan": rnd.choice(plans_by_n[len(f["spans"])]), "seed": chk.seed * 7919 + i})
@@ -624,6 +665,9 @@ def run_binding(chk, quick):
     for j in range(1 if quick else 5):
         larges.append({"idx": 10000 + 2 * j, "forest": rnd.choice(wf), "reps": 1100, "mode": "forest", "seed": chk.seed * 31 + j, "plan": None})
         larges.append({"idx": 10001 + 2 * j, "forest": rnd.choice(wf1), "reps": 1100 if j else 300, "mode": "trace", "seed": chk.seed * 37 + j, "plan": None})
+    # one trace between 500 and 1000 spans (between one and two result pages of the span tree's paging loop)
+    f_mid = rnd.choice(wf1)
+    larges.append({"idx": 10100, "forest": f_mid, "reps": max(2, 760 // len(f_mid["spans"])), "mode": "trace", "seed": chk.seed * 41, "plan": None})
     cases = larges + cases
 
     binary = vlib.build_driver()
@@ -650,6 +694,28 @@ def run_binding(chk, quick):
             occ[key] = occ.get(key, 0) + 1
             if key not in first:
                 first[key] = (detail, {k: v for k, v in c.items()})
+    # ---- percentiles: ONE definition for every service and percentile of the run
+    obs = []
+    for c, (fails, outcome, views) in zip(cases, results):
+        for o in getattr(fails, "obs", []):
+            o = dict(o)
+            o["case"] = c
+            o["defs"] = matching_defs(o)
+            obs.append(o)
+    if obs:
+        score = {name: sum(1 for o in obs if name in o["defs"]) for name in PCT_DEFS}
+        best = max(sorted(score), key=lambda n: score[n])
+        chk.cov["percentile_definition"] = {"observations": len(obs), "matching": score, "engine_uses": best}
+        if score[best] * 3 >= len(obs) * 2:        # a clear majority pins the engine's definition; the rest contradict it
+            for o in obs:
+                if best not in o["defs"]:
+                    key = "C12:red:percentile-inconsistent:%s" % o["mk"]
+                    occ[key] = occ.get(key, 0) + 1
+                    if key not in first:
+                        first[key] = ("service %s: p%d = %r for entry span durations %s (order statistics around the rank: %s and %s, rank fraction "
+                                      ".%02d); the '%s' definition that explains %d of the %d other percentile answers of this run gives %r" % (
+                                          o["svc"], o["p"], o["got"], o["durs"], o["lo"], o["hi"], o["frac"], best, score[best], len(obs) - 1,
+                                          PCT_DEFS[best](o["lo"], o["hi"], o["frac"])), {k: v for k, v in o["case"].items()})
     chk.cov["all_violation_keys"] = dict(sorted(occ.items()))
     for key in sorted(first):
         detail, rep = first[key]
@@ -668,7 +734,9 @@ def run_binding(chk, quick):
         "malformed forests: an error status for a view is accepted; a 200 answer must be a partial view: listed roots are roots of the trace, "
         "counts do not exceed the trace's own spans, tree nodes are spans of the trace beneath their parent id, dependency counts do not exceed the "
         "parent/child pairs inside a trace, RED counts lie between the definite and the possible entry spans",
-        "RED rate accepted as count/60 (as coded), /300, /5 or /1; percentiles anywhere between the two order statistics around rank p(n-1)/100",
+        "RED rate accepted as count/60 (as coded), /300, /5 or /1; a percentile must lie between the two order statistics around rank p(n-1)/100, and "
+        "all percentile answers of a run must follow ONE of the usual definitions (linear, lower, higher, nearest, midpoint): the definition that "
+        "explains at least two thirds of the informative answers is taken as the engine's, an answer that contradicts it is a violation",
         "WIP buffers are flushed (driver op flush) before the views are read, as the server's flush timer does within seconds",
     ]
     chk.describe(rule="TLC enumerates all forests <= %d spans (<= 3 traces, <= 3 services, <= 2 error spans) x <= 1 malformation, samples forests of 5-7 "
